@@ -130,6 +130,13 @@ def getOp (T : Tables) (kp : List Str) (S : Bool) : Option Meta :=
     | some m => some m
     | none => traverse T false kp T.agg
 
+/-- the test of `augmentOp` on one table entry: a `FieldName` entry naming a non-empty string of `v` that the expression does not match -/
+def nameMismatch (p : Str → Bool) (v : List (Str × J)) (e : Str × Meta) : Bool :=
+  e.2.isTy .FieldName &&
+    (match lookup e.1 v with
+     | some (.str s) => !s.isEmpty && !p s
+     | _ => false)
+
 /-- `augmentOp` (selective mode only): when some `FieldName` entry of the operator names a
     non-empty string of `v` that does not match the expression, every `Redactable` entry
     becomes `Exempt`. -/
@@ -137,13 +144,8 @@ def augmentOp (re : Option (Str → Bool)) (op : MTable) (v : List (Str × J)) :
   match re with
   | none => op
   | some m =>
-    let convert := op.any fun (k, mt) =>
-      mt.isTy .FieldName &&
-        (match lookup k v with
-         | some (.str s) => !s.isEmpty && !m s
-         | _ => false)
-    if convert then
-      op.map fun (k, mt) => if mt.isTy .Redactable then (k, .ty .Exempt) else (k, mt)
+    if op.any (nameMismatch m v) then
+      op.map fun x => if x.2.isTy .Redactable then (x.1, .ty .Exempt) else (x.1, x.2)
     else op
 
 def isInSearchStage (T : Tables) : J → Bool
